@@ -65,7 +65,7 @@ def _one_chunk(ctx, idx, chunk, label, monitor, harness_cmd, post):
             f.write(json.dumps(b, separators=(",", ":")) + "\n")
     harness([harness_cmd, "--in", inp, "--out", raw], timeout=3000)
     stats = post(raw, tr)
-    res = tlc(ctx, monitor, workers=1, trace=tr, timeout=3000, env={"JAVA_TOOL_OPTIONS": JAVA_OPTS_TRACE + " -Xmx3g"})
+    res = tlc(ctx, monitor, workers=1, trace=tr, timeout=900, env={"JAVA_TOOL_OPTIONS": JAVA_OPTS_TRACE + " -Xmx3g"})
     tlc_must_pass(ctx, res, "%s on %s chunk %d" % (monitor, label, idx))
     sample_lines = []
     with open(tr) as f:
